@@ -2,7 +2,7 @@
 """Regenerate /verif/MANIFEST.json from props.json (one source of truth) and validate it."""
 import json, os, sys
 ROOT = os.path.dirname(os.path.dirname(os.path.abspath(__file__)))
-props = json.load(open(os.path.join(ROOT, "props.json")))
+props = {fn[:-5]: json.load(open(os.path.join(ROOT, "props.d", fn))) for fn in sorted(os.listdir(os.path.join(ROOT, "props.d"))) if fn.endswith(".json")}
 ids = [json.loads(l)["id"] for l in open(os.path.join(ROOT, "properties.jsonl")) if l.strip()]
 meta = props.get("_meta", {})
 checks, na = [], []
